@@ -132,4 +132,37 @@ theorem read_fresh (f : String → D → V) (d : D) (ops : List (Op D V))
     (read f (run f (St.init d) ops) k).1 = f k (run f (St.init d) ops).data :=
   read_fst_of_coherent (coherent_run ops _ (coherent_init f d) hs) k
 
+/-! ### the data after a history does not involve the cache -/
+
+/-- the data after a history, computed without the cache: reads are skipped -/
+def dataRun (d : D) : List (Op D V) → D
+  | [] => d
+  | .read _ :: t => dataRun d t
+  | .edit g :: t => dataRun (g d) t
+  | .mutate m :: t => dataRun (m.apply d) t
+
+
+theorem run_data (f : String → D → V) (s : St D V) (ops : List (Op D V)) :
+    (run f s ops).data = dataRun s.data ops := by
+  induction ops generalizing s with
+  | nil => rfl
+  | cons op t ih =>
+    have hr : run f s (op :: t) = run f (step f s op).2 t := rfl
+    rw [hr, ih]
+    cases op with
+    | read k =>
+      have : (step f s (.read k)).2.data = s.data := by
+        show (Cache.read f s k).2.data = s.data
+        unfold Cache.read
+        cases h : (verify s).cache.lookup k <;> simp [h, verify_data]
+      rw [this]; rfl
+    | edit g => rfl
+    | mutate m =>
+      have : (step f s (.mutate m)).2.data = m.apply s.data := by
+        show (mutate m s).data = m.apply s.data
+        unfold mutate
+        cases m.verifiesFirst <;> simp [verify_data]
+      rw [this]; rfl
+
+
 end TV.Cache
